@@ -126,7 +126,7 @@ for _b, _l in sorted(CONV_PAIRS.items()):
     for _nb in _l:
         PAIRS_BY_CLASS.setdefault(pair_class(_b, _nb), []).append((_b, _nb))
 
-LEVEL_TEXT = ("Coq theorems for all inputs (87 pinned): (1) the as-is model of the float parser (Repr::from_str_native transcribed on byte lists: sign, rfind of "
+LEVEL_TEXT = ("Coq theorems for all inputs (90 pinned): (1) the as-is model of the float parser (Repr::from_str_native transcribed on byte lists: sign, rfind of "
               "the scale marker, isize scale, point, hexadecimal form, digit counting, final normalisation; UBig::from_str_radix at its C07 "
               "specification) returns exactly the written value and the number of written digits on every text the documented grammar accepts "
               "(parse_spec = the grammar read left to right), and accepts nothing else: parse_asis = Ok v <-> parse_spec = Some v for every byte string and every base 2..36; "
@@ -141,7 +141,8 @@ LEVEL_TEXT = ("Coq theorems for all inputs (87 pinned): (1) the as-is model of t
               "rounding of the exact value; the precision rule NewB^p' <= B^p < NewB^(p'+1); ilog_exact; (6) round 3, the ln/exp route AS IT IS (Float/LargeExpAsis.v: the code transcribed on the C11 as-is "
               "models of Context::ln / ln_base / exp, FBig multiplication and div_rem_euclid; work precision regenerated from the source): the inputs that take it, the answer is ONE specification rounding of "
               "significand * exp(rem) * NB^q, the Euclidean step is exact and its remainder one convert_int rounding; if ln, ln_base and exp err by at most k units in the last place of the work precision, "
-              "|R - V| <= (NB^(1-p)(1+eps)+eps)|V| with eps <= 18 k log2up(NB) NB^(1-2p) for EVERY exponent whenever 16 k log2up(NB) <= NB^(2p-1) (C08_convert_large_route_error_fixed, after the repair F07); "
+              "|R - V| <= (NB^(1-p)(1+eps)+eps)|V| with eps <= 18 k log2up(NB) NB^(1-2p) for EVERY exponent whenever 16 k log2up(NB) <= NB^(2p-1) (C08_convert_large_route_error_fixed, after the repair F07), "
+              "and since the guard digits of the repair F11 (round 4: NB^g > 2^20) for EVERY p >= 1 with eps <= 18 k log2up(NB) NB^(1-2p) / 2^20 (C08_convert_large_route_error_guarded); "
               "(7) IEEE import = exact dyadic value of Flocq's binary32/binary64 with precision bit_len(mantissa) (regenerated); (8) with_base's precision as it is (two f32 bounds as dyadic numbers, IEEE "
               "division to nearest even, truncation): under the log2_bounds contract it is floor(lb/ub), or one more exactly when the division rounded a non-integer quotient up to an integer; NB^p' <= B^p in the "
               "first case, NB^(p'-1) <= B^p always; it is the maximal precision iff pmax * ub <= lb (C08_with_base_precision_closed); (9) FBig::from_parts_const (what the literal macros expand to): the digit "
@@ -156,7 +157,8 @@ LEVEL_TEXT = ("Coq theorems for all inputs (87 pinned): (1) the as-is model of t
               "a binary float = significand spec_round-ed to 4p+4 bits, carry undone by four bits (C08_hex_rounded_spec, C08_radix_body_hex), padding with the 0x prefix after the sign "
               "(C08_radix_format_text_asis_spec); (12) regenerated on every run and proved equal to what the models use (C08_gen4_*): the rounding prefixes of fmt_round and fmt_round_scientific, the "
               "table of impl_fmt_with_base!, the scale-marker table of the parser, the loop body of common_root, the common-root branch of convert_base.")
-LEVEL_NOTE = ("Partial: the ln/exp route of convert_base (|e| > 38, since round 4 only between bases WITHOUT a common root) stays an OPEN finding (not faithfully rounded next to rounding boundaries / for representable values); its accuracy theorem is "
+LEVEL_NOTE = ("Partial: the ln/exp route of convert_base (|e| > 38, since round 4 only between bases WITHOUT a common root, and with guard digits: F10, F11 fixed) stays an OPEN finding (one rounding of an approximant: wrong when the value is "
+              "representable or a tie or within ~2^-20 NB^(1-2p) of one - in practice representable values at large precisions in the directed modes); its accuracy theorem is "
               "conditional on a k-ulp contract of ln / ln_base / exp (C11: certified per case, not proved universally). Its answers are decided case by case by the contract checker against the exact "
               "rational; a failing answer is a known finding only if it is bit for bit what the as-is model of the route predicts (model evaluated on every case: fidelity 100 %; time budget 3 s, else the "
               "bound of C08_convert_large_route_error_wp decides). On every other route the verdict is strict since round 4: the answer must be convert_base_spec (one rounding of the exact value; fits the target precision). "
